@@ -240,6 +240,21 @@ Definition manifest_of_doc (bs : list N) : option manifest :=
   | None => None
   end.
 
+(* length of the three header lines of a document (0 if it has fewer) *)
+Definition doc_header_len (d : list N) : nat :=
+  match split_line d [] with
+  | Some (l0, r0) =>
+      match split_line r0 [] with
+      | Some (l1, r1) =>
+          match split_line r1 [] with
+          | Some (l2, _) => length l0 + length l1 + length l2 + 3
+          | None => 0
+          end
+      | None => 0
+      end
+  | None => 0
+  end.
+
 Definition oracle (c : case) : bool :=
   match c with
   | CEnc o fk np wt p sc obs =>
@@ -249,6 +264,10 @@ Definition oracle (c : case) : bool :=
       else
         match encrypt_spec_w concrete SEG o fk np (wrap_of wt) pb, obs with
         | None, EOCall => true
+        (* Encrypt may refuse options whose header would not fit into the first segment-size
+           bytes of the document, which is where Decrypt looks for it (every key name either
+           makes Encrypt fail or round-trips) *)
+        | Some d, EOCall => Nat.ltb HDR (doc_header_len d)
         | Some d, EOStream oout SClean =>
             obytes_match d oout
             && match decrypt_spec concrete SEG fk d with
